@@ -109,6 +109,44 @@ def model_sources():
     return sorted(out)
 
 
+def gen_project_files():
+    """_CoqProject and Dispatch.v are generated: every .v under coq/ is part of the project, and a
+    model file registers its wire entry points with marker comments
+        (* DISPATCH: 401 => run_ravel *)
+    so that adding a property never edits a shared file."""
+    vs = []
+    for v in model_sources():
+        rel = os.path.relpath(v, COQ)
+        if rel in ("Extract.v",):
+            continue
+        vs.append(rel)
+    if "Dispatch.v" not in vs:
+        vs.append("Dispatch.v")
+    proj = "-Q . Abm\n" + "\n".join(sorted(vs)) + "\n"
+    entries, imports = [], []
+    for rel in sorted(vs):
+        if rel.startswith(("Proofs/", "Props/")) or rel == "Dispatch.v":
+            continue
+        txt = open(os.path.join(COQ, rel)).read()
+        ms = re.findall(r"\(\*\s*DISPATCH:\s*(\d+)\s*=>\s*(.+?)\s*\*\)", txt)
+        if ms:
+            imports.append(rel[:-2].replace("/", "."))
+            entries += [(int(a), b) for a, b in ms]
+    ids = [a for a, _ in entries]
+    assert len(ids) == len(set(ids)), "duplicate DISPATCH id: %r" % sorted(ids)
+    disp = ("(* GENERATED by harness/runner.py from the DISPATCH markers of the model files. *)\n"
+            "From Coq Require Import ZArith List.\n"
+            "From Abm Require Import Base.Sx " + " ".join(imports) + ".\n"
+            "Open Scope Z_scope.\n\n"
+            "Definition run_model (id : Z) (x : sx) : sx :=\n  match id with\n"
+            + "".join(f"  | {a} => {b} x\n" for a, b in sorted(entries))
+            + "  | _ => sx_err\n  end.\n")
+    for path, content in ((os.path.join(COQ, "_CoqProject"), proj), (os.path.join(COQ, "Dispatch.v"), disp)):
+        if not os.path.exists(path) or open(path).read() != content:
+            with open(path, "w") as f:
+                f.write(content)
+
+
 def build_all(verbose=False):
     """Full .vo build (coq_makefile + make), extraction, ocaml compile.  Serialised by a lock.
     Returns (ok_proofs, ok_model, log)."""
@@ -118,6 +156,7 @@ def build_all(verbose=False):
     log = []
     with open(os.path.join(BUILD, "lock"), "w") as lk:
         fcntl.flock(lk, fcntl.LOCK_EX)
+        gen_project_files()
         mk = os.path.join(COQ, "Makefile")
         if _newer(os.path.join(COQ, "_CoqProject"), mk):
             rc, out = sh("coq_makefile -f _CoqProject -o Makefile", cwd=COQ)
@@ -133,7 +172,7 @@ def build_all(verbose=False):
             print(out)
         # extraction only needs the model files (Dispatch.vo and what it imports)
         disp = os.path.join(COQ, "Dispatch.vo")
-        ok_model = os.path.exists(disp)
+        ok_model = os.path.exists(disp) and not _newer(os.path.join(COQ, "Dispatch.v"), disp)
         if ok_model:
             stale = (not os.path.exists(MODEL_BIN)
                      or _newer(disp, MODEL_BIN)
